@@ -486,7 +486,16 @@ def gen_func(rng, oid, knobs):
           "mode": mode, "prep": rng.random() < 0.5,
           "grad_mode": _pick(rng, ["ambient", "ambient", "no_grad"]),
           "requires_grad": rng.random() < 0.3, "alias_args": rng.random() < 0.1}
-    if fn == "cplxdual2D":
+    if fn == "prepfn":
+        op["args"] = []
+        op["pick"] = rng.randrange(64)
+        op["loader"] = _pick(rng, ["qshift", "qshift", "level1", "biort", "level1c"])
+        op["name"] = _pick(rng, catalog.QSHIFTS if op["loader"] == "qshift" else
+                           ["farras", "near_sym_a2"] + list(catalog.BIORTS))
+        op["prep"] = False
+        op["requires_grad"] = False
+        op["alias_args"] = False
+    elif fn == "cplxdual2D":
         op["args"] = [spec([N, C, _pick(rng, [8, 16, 24]), _pick(rng, [8, 16, 24])])]
         op["J"] = rng.randrange(1, 3)
         op["level1"] = _pick(rng, ["farras", "farras", "near_sym_a2", "qshift_a"])
@@ -514,7 +523,8 @@ def gen_func(rng, oid, knobs):
 def gen_fault(rng, profile, c, o, slots):
     kind_pool = [("op_error", 3), ("async_exc", 2)]
     io_capable = o["op"] == "load" or (o["op"] in ("construct", "restart")
-                                       and slots[o["slot"]] in IO_FAMILIES)
+                                       and slots[o["slot"]] in IO_FAMILIES) \
+        or (o["op"] == "func" and o.get("fn") in ("cplxdual2D", "prepfn"))
     if io_capable:
         w = 6 if profile == "C18" else 2
         kind_pool += [("io_open", w), ("io_read", w), ("io_eof", w)]
@@ -535,6 +545,10 @@ def gen_fault(rng, profile, c, o, slots):
         f["at"] = 1 if rng.random() < 0.8 else 2
     elif kind == "io_read":
         f["at"] = _logu(rng, 1, 60)
+        # the error the read fails with (plain EIO or a transient one) and for
+        # how many consecutive reads the condition lasts
+        f["exc"] = _pick(rng, ["EIO", "EIO", "EIO", "EINTR", "EAGAIN", "ETIMEDOUT"])
+        f["burst"] = _pick(rng, [1, 1, 1, 2, 3, 4])
     else:
         f["at"] = 1 if rng.random() < 0.8 else 2
         f["arg"] = rng.randrange(1 << 20)
@@ -604,6 +618,11 @@ def sweep_plans(tier, sizes=None):
             k += 1
             if tier == "thorough" or k % 7 == 0:
                 plans.append(plan(nm, {"kind": "io_read", "at": at}, "io_read"))
+            if tier == "thorough" or k % 7 == 3:
+                # transient conditions lasting over several consecutive reads
+                for exc, burst in (("EINTR", 2), ("ETIMEDOUT", 3), ("EAGAIN", 5)):
+                    plans.append(plan(nm, {"kind": "io_read", "at": at, "exc": exc, "burst": burst},
+                                      "io_read_transient"))
         for off in range(0, nbytes):
             k += 1
             if k % stride == 0:
